@@ -26,7 +26,8 @@ META = {
             "handler with a recording fake player, every call under a watchdog, and TLC validates the recorded calls "
             "line by line. The last call of a history may run with an injected write fault (client refuses the "
             "prompt / first backend write fails); attempted writes are recorded and the report requirement stays. "
-            "Histories are the quantifier, so exhaustive short histories over all statuses plus random "
+            "Eight two-goroutine scenarios on the modern handler (a final response held at its status event while another "
+            "goroutine queues a pack of the same id) are judged against both sequential orders. Histories are the quantifier, so exhaustive short histories over all statuses plus random "
             "longer ones is the right level.",
     "design_ref": "DESIGN.md section 4, C27",
     "level_note": "A call that has not returned after the watchdog (3 s, confirmed by one re-run on a fresh handler) or "
@@ -134,9 +135,14 @@ def run(ctx):
     files = hists
     with open(ctx.path("hist.json"), "w") as fh:
         json.dump(files, fh)
-    ctx.harness("./c27", "TestReplay", timeout=1200)
+    # two goroutines on one modern handler: a final response held at its status event || a queue call for the same id
+    par = [{"first": f, "st": st, "next": n} for f in ("A", "C") for st in ("success", "declined") for n in ("A", "C")]
+    with open(ctx.path("par.json"), "w") as fh:
+        json.dump(par, fh)
+    ctx.harness("./c27", "TestReplay|TestConcurrent", timeout=1200)
     st = json.load(open(ctx.path("stats.json")))
-    recs = vlib.read_ndjson(ctx.path("trace.ndjson"))
+    recs = vlib.read_ndjson(ctx.path("trace.ndjson")) + vlib.read_ndjson(ctx.path("par.ndjson"))
+    pst = json.load(open(ctx.path("par_stats.json")))
     ctx.log("replayed %d histories, %d calls (hung %d, panics %d, skipped after hangs %d)"
             % (st["runs"], st["calls"], st["hung"], st["panics"], st["skipped_after_hung"]))
     if st["skipped_after_hung"]:
@@ -147,6 +153,13 @@ def run(ctx):
     rejected, matched, tstates = ctx.validate_runs("ResourcePack_Trace", recs, max_rejects=ctx.pick(12, 30))
     for rj in rejected:
         mode, bad = "%s@%d" % (rj["run"][0]["mode"], rj["run"][0]["ver"]), rj["bad"] or {}
+        if bad.get("ev") == "par":
+            key = "%s:concurrent:%s||%s->prompts=%s" % (mode, describe(bad["a"]), describe(bad["b"]),
+                                                         "".join(bad.get("prompts", [])) or "-")
+            ctx.finding(key, "modern handler, two goroutines: %s while %s is at its status event: what was written is "
+                             "not what the two calls write in either order: %s" % (describe(bad["b"]), describe(bad["a"]),
+                                                                                  json.dumps(bad)), rj)
+            continue
         prior = [describe(x) for x in rj["run"][1:rj["bad_index"]]]
         state = abstract_state(rj["run"][0]["mode"], rj["run"][1:rj["bad_index"]])
         if not bad.get("returned", True):
@@ -170,6 +183,8 @@ def run(ctx):
                 "one queue and one client response",
         "histories": nhist,
         "per_mode": st["per_mode"],
+        "concurrent_pairs": pst["cases"],
+        "concurrent_pairs_overlapped": pst["overlapped"],
         "hung_calls": st["hung"],
         "panicked_calls": st["panics"],
         "trace_events_validated": matched,
